@@ -832,7 +832,15 @@ pub fn check_store<D: Distance>(rtxn: &RoTxn, db: RawDb, m: &IndexModel, probe: 
             if let Ok(reader) = Reader::<D>::open(rtxn, m.index, adb::<D>(db)) {
                 let ids: RoaringBitmap = m.items.keys().copied().collect();
                 if reader.item_ids() != &ids {
-                    return Err(format!("Reader::item_ids has {} ids, model has {}", reader.item_ids().len(), ids.len()));
+                    let extra = reader.item_ids() - &ids;
+                    let missing = &ids - reader.item_ids();
+                    return Err(format!(
+                        "Reader::item_ids has {} ids, model has {}; in the reader only: {:?}, in the model only: {:?}",
+                        reader.item_ids().len(),
+                        ids.len(),
+                        extra.iter().take(4).collect::<Vec<_>>(),
+                        missing.iter().take(4).collect::<Vec<_>>()
+                    ));
                 }
                 if reader.n_items() != ids.len() {
                     return Err(format!("Reader::n_items = {}, model has {}", reader.n_items(), ids.len()));
